@@ -556,6 +556,8 @@ class Executor:
         m = re.match(r"^\{(alloc\d+): &.*\}$", t)
         if m:
             return ("ref", Place("*static:" + m.group(1)))      # reference to a static: opaque memory of its own
+        if re.match(r"^\{0x[0-9a-f]+ as \*(?:mut|const) .*\}$", t):
+            return ("unit",)      # raw pointer constant (null / dangling sentinel inside Bytes::new() etc.): opaque
         if re.match(r"^[A-Za-z_][\w:<>, ]*\{\{.*\}\}$", t):
             return ("unit",)      # struct constant printed field by field (e.g. alloc Layout): opaque, leaves unconstrained
         if t.startswith('"') or re.match(r"^[A-Za-z_][\w:]*$", t) or t == "()" or t.startswith("PhantomData") or t.startswith("ZeroSized:") or t.startswith("{closure@"):
@@ -821,8 +823,11 @@ class Executor:
                 if v[0] == "ref" and sort_of_type(tgt) is not None:
                     put(self.fresh("addr:" + dst.key(), sort_of_type(tgt)))   # address of an object: an arbitrary word
                     return
+                if v[0] == "unit":
+                    self.clear_prefix(st, dst.key())      # opaque constant reinterpreted as an aggregate: leaves unconstrained
+                    return
             if m.group(3) not in ("IntToInt",):
-                raise Untranslatable("cast kind " + m.group(3))
+                raise Untranslatable("cast kind " + m.group(3) + " of " + rhs[:80])
             put(self.cast(v, m.group(2)))
             return
         if rhs.startswith("no_retag "):
@@ -1081,6 +1086,9 @@ class Executor:
         and ends at return, at a stop_at callee or right before the first statement of end_line"""
         matches = [f for n, f in self.funcs.items() if re.search(fname_regex, n)]
         if len(matches) != 1:
+            # ambiguous or written against the signature: `name(_1: T1, _2: T2, ..)`
+            matches = [f for n, f in self.funcs.items() if re.search(fname_regex, n + "(" + ", ".join("%s: %s" % (a[0], a[1]) for a in f.args) + ")")]
+        if len(matches) != 1:
             raise Untranslatable("function pattern %r matches %d functions" % (fname_regex, len(matches)))
         fn = matches[0]
         st = State()
@@ -1204,6 +1212,12 @@ class Executor:
                 bad = st.clone()
                 bad.conds.append("(not %s)" % ok)
                 self.paths.append(Path(bad, "panic", m.group(3), fn))
+                if getattr(self, "release_arith", False) and re.match(r"^attempt to compute `\{\} [-+*] \{\}`", m.group(3)):
+                    # the same arithmetic in a release build (overflow checks off) wraps and carries on: the checked
+                    # operation's `.0` already holds the wrapped result
+                    wrapped = st.clone()
+                    wrapped.conds.append("(not %s)" % ok)
+                    self.exec_block(wrapped, fn, m.group(4), frame, list(stack))
                 st.conds.append(ok)
                 return self.exec_block(st, fn, m.group(4), frame, stack)
             m = re.match(r"^drop\((.*)\) -> \[return: (bb\d+), unwind.*\]$", term)
